@@ -358,9 +358,10 @@ class Ctx:
         os.makedirs(outdir, exist_ok=True)
         rc, out, dt = run([exe] + [str(a) for a in args] + [outdir], timeout=timeout)
         if rc != 0:
+            kept = self._keep_current_input(outdir)
             self.tie_broken("harness", f"{os.path.basename(exe)} {label} exited {rc}: {out[-2000:]}")
-            self.violation(f"harness-crash.{label}", f"harness aborted (exit {rc}) — a signal or sanitizer abort in the real code is a result: {out[-800:]}",
-                           {"cmd": [exe] + [str(a) for a in args], "output": out[-4000:]})
+            self.violation(f"harness-crash.{label}", f"harness aborted (exit {rc}) — a signal or sanitizer abort in the real code is a result; killing input: {kept}; {out[-800:]}",
+                           {"cmd": [exe] + [str(a) for a in args], "killing_input": kept, "output": out[-4000:]})
             return False
         ops, impl, model = (os.path.join(outdir, x) for x in ("ops.txt", "impl.txt", "model.txt"))
         rc, err = run_driver(ops, model)
@@ -387,15 +388,28 @@ class Ctx:
             self._disagreements = getattr(self, "_disagreements", []) + dis
         return total == 0
 
-    def stage_property_mode(self, exe, args, label="prop", timeout=3000):
+    def _keep_current_input(self, outdir):
+        kept = []
+        for fn in sorted(os.listdir(outdir)) if os.path.isdir(outdir) else []:
+            if fn.startswith("current_input"):
+                dst = os.path.join(REPLAYS, f"{self.prop}-{time.strftime('%Y%m%d-%H%M%S')}-{fn}")
+                try:
+                    shutil.copy(os.path.join(outdir, fn), dst)
+                    kept.append(dst)
+                except OSError:
+                    pass
+        return kept
+
+    def stage_property_mode(self, exe, args, label="prop", timeout=3000, env=None):
         """Run the harness's property mode: it evaluates the property's own statement on the
         real code and writes FAIL lines `FAIL <key> <detail>` to prop.txt."""
         outdir = os.path.join(self.work, label)
         os.makedirs(outdir, exist_ok=True)
-        rc, out, dt = run([exe] + [str(a) for a in args] + [outdir], timeout=timeout)
+        rc, out, dt = run([exe] + [str(a) for a in args] + [outdir], timeout=timeout, env=env)
         if rc != 0:
-            self.violation(f"harness-crash.{label}", f"property-mode harness aborted (exit {rc}): {out[-800:]}",
-                           {"cmd": [exe] + [str(a) for a in args], "output": out[-4000:]})
+            kept = self._keep_current_input(outdir)
+            self.violation(f"harness-crash.{label}", f"property-mode harness aborted (exit {rc}) - a signal, sanitizer/assertion abort or timeout in the real code is a result; killing input: {kept}; output tail: {out[-800:]}",
+                           {"cmd": [exe] + [str(a) for a in args], "killing_input": kept, "output": out[-4000:]})
             return False
         fails = []
         pfile = os.path.join(outdir, "prop.txt")
